@@ -257,6 +257,12 @@ def _judge(case, model, spy, X, y, K, n, rs, updates, used, where, v, step_sel):
         if len(flat) == len(used) and any(a_ != b_ for a_, b_ in zip(flat, used)):
             k_ = next(i for i, (a_, b_) in enumerate(zip(flat, used)) if a_ != b_)
             v.append(violation("decorated_indices_stale_when_the_gradient_is_computed", {"step": k_, "batch": flat[k_], "recorded_at_use": used[k_]}, **where))
+    if mode == "path":
+        n_batches = sum(len(ep) for ep in spy.log)
+        if updates["n"] != n_batches:
+            v.append(violation("training_step_not_fed_by_the_batching_seam", {"optimiser_steps": updates["n"], "batches_yielded_by__batchify": n_batches,
+                                                                             "why": "a step trained on data that did not come from _batchify: row order, affinity block and the indices "
+                                                                                    "recorded by a must-link / cannot-link decoration are then unrelated"}, **where))
     if mode in ("fit", "refit_up", "refit_down", "after_failed_path"):
         if len(spy.log) != max_iter:
             v.append(violation("wrong_number_of_epochs", {"epochs": len(spy.log), "max_iter": max_iter}, **where))
